@@ -76,7 +76,7 @@ func den(v Val) (float64, bool) {
 		switch v.Num.K {
 		case "int":
 			return float64(int64(u64(v.Num.L))), true
-		case "flt":
+		case "flt", "big":
 			return math.Float64frombits(u64(v.Num.L)), true
 		}
 	}
